@@ -186,6 +186,19 @@ def replay_queue(ctx, rep, conns, bufs, maxpkts, maxreport, queue_factory=None, 
     return len(covered), len(g.edges)
 
 
+def mc_notified(ctx, rep, conns, bufs, maxpkts, maxreport):
+    """(M) DataQueue.tla with FlushNotified (a disconnection whose listeners still submit packets on the
+    closing handle): the invariants hold in every reachable state.  The action is bound to the code by the
+    host traces ('discn' events), not by the queue replay: a DataPacketQueue alone notifies nobody."""
+    cfg = _write_cfg(ctx, f"dqn_{len(conns)}_{bufs}_{maxpkts}.cfg",
+                     _cfg_text(conns, bufs, maxpkts, maxreport).replace("SPECIFICATION Spec", "SPECIFICATION SpecN"))
+    res = tlc.mc(ctx.spec("Hci", "DataQueue.tla"), cfg, workers=8)
+    if res["violation"]:
+        raise tlc.TlcError(f"DataQueue.tla (SpecN) violates {res['violation']} in the model itself")
+    tlc.require_actions(res, ["Enqueue", "Complete", "Flush", "FlushNotified"], "DataQueue/SpecN")
+    rep.add_mc("Hci/DataQueue.tla (SpecN)", res, {"Conns": conns, "Bufs": bufs, "MaxPkts": maxpkts, "MaxReport": maxreport})
+
+
 # ----------------------------------------------------------------------------- (A) pipe replay
 class PipeReplayer:
     def __init__(self, has_drain, pipe_factory=None):
@@ -348,6 +361,22 @@ def host_traces(ctx, rep, n_traces, host_patch=None):
             pool = {i: ("acl" if (shared or kinds[i - 1] == "classic") else "le") for i in handles}
             alive = set(handles)
             cnt = {i: 0 for i in handles}
+            # a listener of the host's 'disconnection' event that still uses the link it is being told
+            # about (a last response / notification): plan = fragments per PDU to submit on that handle
+            notify = {"h": None, "plan": [], "ran": False}
+
+            def on_disconnection(handle, reason):
+                if handle != notify["h"]:
+                    return
+                notify["ran"] = True
+                for nfrag in notify["plan"]:
+                    try:
+                        host.send_l2cap_pdu(handle, 0x40, bytes(27 * nfrag - 4))
+                    except Exception:
+                        # refusing data for a link that is going away is the implementation's right
+                        pass
+
+            host.on("disconnection", on_disconnection)
 
             def snap(e):
                 e["snt"] = [sum(1 for h in sent if h == handles[i]) for i in sorted(handles)]
@@ -396,11 +425,17 @@ def host_traces(ctx, rep, n_traces, host_patch=None):
                             events.append(e)
                 elif alive:
                     i = rng.choice(sorted(alive))
+                    plan = [rng.choice([1, 1, 2]) for _ in range(rng.choice([1, 1, 2]))] if rng.random() < 0.5 else []
+                    notify.update(h=handles[i], plan=plan, ran=False)
                     ev = hci.HCI_Disconnection_Complete_Event(status=0, connection_handle=handles[i], reason=0x13)
                     host.on_packet(bytes(ev))
                     await asyncio.sleep(0.01)
+                    notify["h"] = None
                     alive.discard(i)
-                    snap({"e": "disc", "c": i, "obs": True})
+                    if plan and notify["ran"]:
+                        snap({"e": "discn", "c": i, "n": sum(plan), "obs": True})
+                    else:
+                        snap({"e": "disc", "c": i, "obs": True})
             return pool
 
         try:
@@ -421,6 +456,10 @@ def host_traces(ctx, rep, n_traces, host_patch=None):
                            "pend": (e["pend_acl"] if pname == "acl" else e["pend_le"])})
             if tr:
                 groups.setdefault(bufs, []).append(tr)
+    n_notified = sum(1 for trs in groups.values() for tr in trs for e in tr if e["e"] == "discn")
+    rep.extra["host_disconnections_with_listener_traffic"] = rep.extra.get("host_disconnections_with_listener_traffic", 0) + n_notified
+    if n_traces >= 60 and n_notified == 0:
+        raise RuntimeError("host_traces: no disconnection whose listener submitted data was generated (vacuous)")
     for bufs, traces in sorted(groups.items()):
         cfg = _write_cfg(ctx, f"dqtrace_{bufs}.cfg",
                          f"SPECIFICATION TraceSpec\nCONSTANTS\n  Conns = {{1, 2, 3}}\n  Ghost = 9\n  Bufs = {bufs}\n  MaxPkts = 100000\n  MaxReport = 16\n"
@@ -451,12 +490,14 @@ def run(ctx, rep):
     if ctx.quick:
         replay_queue(ctx, rep, [1, 2], 2, 4, 3, mode="edges", limit=12000)
         replay_queue(ctx, rep, [1, 2], 1, 3, 2, mode="edges")
+        mc_notified(ctx, rep, [1, 2], 2, 4, 3)
         replay_pipe(ctx, rep, 4)
         host_traces(ctx, rep, 300)
     else:
         replay_queue(ctx, rep, [1, 2], 2, 5, 3, mode="edges")
         replay_queue(ctx, rep, [1, 2, 3], 3, 5, 4, mode="edges", limit=150000)
         replay_queue(ctx, rep, [1, 2], 1, 4, 2, mode="edges")
+        mc_notified(ctx, rep, [1, 2, 3], 2, 5, 3)
         replay_pipe(ctx, rep, 6)
         host_traces(ctx, rep, 4000)
     # (B') the repository's own tests, traced at the HCI boundary, against specs/Stack/HciMonitor.tla
@@ -534,6 +575,29 @@ def selftest(ctx, rep):
     r4 = type(rep)(rep.prop, rep.level)
     host_traces(ctx, r4, 60, host_patch=patch)
     results["host_extra_credit"] = len(r4.violations)
+
+    def patch_flush_first(host):
+        # the queues of a closing link are flushed BEFORE its listeners are told about it (and not after)
+        orig = host.on_hci_disconnection_complete_event
+
+        def on_hci_disconnection_complete_event(event):
+            queues = list({id(q): q for q in (host.acl_packet_queue, host.le_acl_packet_queue) if q}.values())
+            if event.connection_handle in host.connections:
+                for q in queues:
+                    q.flush(event.connection_handle)
+            for q in queues:
+                q.flush = lambda handle: None
+            try:
+                return orig(event)
+            finally:
+                for q in queues:
+                    del q.flush
+
+        host.on_hci_disconnection_complete_event = on_hci_disconnection_complete_event
+
+    r5 = type(rep)(rep.prop, rep.level)
+    host_traces(ctx, r5, 60, host_patch=patch_flush_first)
+    results["host_flush_before_notify"] = len([v for v in r5.violations if v.sig == "host:discn:rejected"])
     print("selftest:", results)
     for k, v in results.items():
         if v == 0:
